@@ -11,9 +11,13 @@ vars == <<c, done>>
 Positions == {<<px, fx, py, fy>> : px \in 0..(N - 1), fx \in {0, 3, 7}, py \in 0..(M - 1), fy \in {0, 3, 7}}
 Shifts == {<<0, 0>>, <<1, 0>>, <<0, 1>>, <<N - 1, M - 1>>, <<2, M + 1>>, <<-1, -2>>}
 (* col: a further atom of the same kind in the SAME pixel as the first one (an atomic column seen along the beam: the contributions *)
-(* to a pixel add up), with another sub-pixel fraction                                                                             *)
-Init == /\ \E a \in Positions, b \in {<<0, 3, 1, 7>>, <<N - 1, 7, M - 1, 7>>}, s \in Shifts, r \in {<<1, 1>>, <<2, 1>>, <<1, 2>>, <<2, 2>>}, col \in BOOLEAN :
-             c = [atoms |-> IF col THEN <<a, b, <<a[1], (a[2] + 2) % 8, a[3], (a[4] + 5) % 8>>, a>> ELSE <<a, b>>, shift |-> s, rep |-> r, column |-> col]
+(* to a pixel add up), with another sub-pixel fraction; "next_pixel": the further atom sits in the NEIGHBOURING pixel along x (wrapped),  *)
+(* so that the 2 x 2 bilinear footprints of the two atoms overlap although their floor pixels differ                               *)
+Init == /\ \E a \in Positions, b \in {<<0, 3, 1, 7>>, <<N - 1, 7, M - 1, 7>>}, s \in Shifts, r \in {<<1, 1>>, <<2, 1>>, <<1, 2>>, <<2, 2>>}, col \in {"none", "same_pixel", "next_pixel"} :
+             c = [atoms |-> CASE col = "same_pixel" -> <<a, b, <<a[1], (a[2] + 2) % 8, a[3], (a[4] + 5) % 8>>, a>>
+                              [] col = "next_pixel" -> <<a, b, <<(a[1] + 1) % N, (a[2] + 3) % 8, a[3], (a[4] + 5) % 8>> >>      \* no two atoms share a floor pixel
+                              [] OTHER -> <<a, b>>,
+                  shift |-> s, rep |-> r, column |-> col]
         /\ done = FALSE
 Next == ~done /\ done' = TRUE /\ UNCHANGED c
 Spec == Init /\ [][Next]_vars
